@@ -69,6 +69,47 @@ DESCRIPTIONS = [          # valid $PROBLEM titles (no leading blank)
 ]
 ANNOTATIONS = DESCRIPTIONS + ['  leading blanks', '', 'a b  c']
 
+# operation kinds
+STORES = ('store', 'store_input', 'store_final')      # context-level stores of a model entry
+BINDERS = STORES + ('dummy_run',)                      # operations that bind a name (+ annotation)
+KEY_COMMITTERS = BINDERS + ('db_store_model',)         # operations whose acknowledgement commits the key
+TXN_KINDS = KEY_COMMITTERS + ('metadata', 'localfile', 'nmfiles')   # run database transactions
+READS = ('retrieve', 'retrieve_log', 'retrieve_name')
+NM_SUFFIXES = ('.lst', '.ext', '.phi', '.cov')
+NM_OK = (3, 4)       # pool entries whose key carries no results in any pool entry (see prepare)
+DUMMY = {}           # pool idx -> results JSON the dummy runner produces for this entry
+NMRES = {}           # pool idx -> JSON of the results parsed from the stored NONMEM output files
+COMMON_OPTIONS = {'esttool': 'dummy', 'seed': 1234, 'text': 'with "quotes", comma åäö', 'nested': {'a': [1, 2.5, None]}}
+CTX_METADATA = [
+    {'tool_name': 'modelsearch', 'tool_options': {'search_space': 'ABSORPTION([FO,ZO]);PERIPHERALS(0..2)',
+                                                  'rank_type': 'bic', 'cutoff': None, 'n': 3, 'x': 1.5},
+     'pharmpy_version': '1.0', 'unicode': 'åäö "q"'},
+    {'tool_name': 'iivsearch', 'tool_options': {'algorithm': 'top_down_exhaustive', 'keep': ['CL', 'VC']},
+     'stats': {'start_time': '2026-01-01 12:00:00', 'end_time': None}},
+]
+
+
+def op_results_json(op):
+    """Results JSON an operation attaches to its key (None: it attaches none)."""
+    k = op['kind']
+    if op.get('model') is None:
+        return None
+    e = POOL[op['model']]
+    if k in STORES:
+        return e['results_json'] if e['has_results'] else None
+    if k == 'dummy_run':
+        return DUMMY[e['idx']]
+    if k == 'nmfiles':
+        return NMRES[e['idx']]
+    return None
+
+
+def op_may_commit_without_results(op):
+    """The key may become visible without results through this operation (the dummy runner
+    first stores the bare model in a transaction of its own)."""
+    k = op['kind']
+    return k in ('db_store_model', 'dummy_run') or (k in STORES and not POOL[op['model']]['has_results'])
+
 
 _BASE = [None]
 
@@ -215,6 +256,22 @@ def prepare():
                     'signature': f'{PROP}/results-not-verbatim-after-fault-free-store',
                     'detail': f'the results of {e["name"]} (log with {len(e["me"].modelfit_results.log)} '
                               f'entries) differ after one fault-free store_model_entry + retrieve'})
+    # what the real dummy runner produces for each entry (seeded by the model name)
+    for e in POOL[:NPOOL]:
+        DUMMY[e['idx']] = create_dummy_modelfit_results(e['model']).to_json()
+    # results parsed from NONMEM output files stored next to the model (model.lst, .ext, ...)
+    import pharmpy as _pharmpy
+    _P['nm_dir'] = os.path.join(os.path.dirname(_pharmpy.__file__), 'internals', 'example_models')
+    for idx in NM_OK:
+        e = POOL[idx]
+        assert not any(x['has_results'] for x in POOL if x['key'] == e['key'])
+        ctx = quiet(LocalDirectoryContext(f'n{idx}', ref=gdir))
+        ctx.store_model_entry(e['me'])
+        do_nmfiles(ctx.model_database, e)
+        r1 = ctx.model_database.retrieve_modelfit_results(ModelHash(e['key']))
+        r2 = ctx.retrieve_model_entry(e['name']).modelfit_results
+        NMRES[idx] = r1.to_json()
+        assert r2.to_json() == NMRES[idx], 'parsing the same NONMEM output twice gives the same results'
     shutil.rmtree(gdir, ignore_errors=True)
     _MEMO.clear()
     keys = [e['key'] for e in POOL[:8]]
@@ -383,8 +440,18 @@ def gen_workload(tape):
         kind = tape.weighted([(10, 'store'), (2, 'store_input'), (1, 'store_final'), (4, 'log'),
                               (2, 'annotate'), (2, 'metadata'), (2, 'localfile'), (3, 'retrieve'),
                               (1, 'db_store_model'), (1, 'retrieve_log'), (2, 'sub_store'),
-                              (1, 'sub_log')], 'op')
+                              (1, 'sub_log'), (2, 'dummy_run'), (2, 'nmfiles'), (1, 'ctx_metadata')], 'op')
         m = chosen[tape.draw(len(chosen), 'op.model')]
+        if kind == 'nmfiles':
+            ok = [x for x in chosen if x in NM_OK]
+            if not ok:
+                kind = 'localfile'
+            else:
+                m = ok[tape.draw(len(ok), 'op.nm')]
+        if kind == 'ctx_metadata':
+            ops.append({'kind': kind, 'model': None, 'v': tape.draw(len(CTX_METADATA), 'meta.v'),
+                        'sub': bool(tape.draw(2, 'meta.sub'))})
+            continue
         if kind in ('log', 'sub_log'):
             sev = ('info', 'warning', 'error')[tape.draw(3, 'log.sev')]
             msg = MESSAGES[tape.draw(len(MESSAGES), 'log.msg')]
@@ -413,6 +480,8 @@ def fmt_op(op):
         return 'retrieve_log()'
     if k == 'retrieve_name':
         return f"retrieve_model_entry({POOL[op['model']]['name']!r})"
+    if k == 'ctx_metadata':
+        return f"{'sub1.' if op.get('sub') else ''}store_metadata(#{op['v']})"
     return f"{'sub1.' if op.get('sub') else ''}{k}({POOL[op['model']]['name']})"
 
 
@@ -429,6 +498,7 @@ class Ref:
         self.files = {}             # key -> set of ('metadata'|'localfile') acknowledged
         self.res_writes = {}        # key -> [(results json, invoke seq, return seq)] acknowledged
         self.annot_writes = {}      # name -> [(text, invoke seq, return seq)] acknowledged writes
+        self.ctx_meta = {}          # '' | 'sub1' -> index of the last acknowledged context metadata
         self.clock = 0
 
     def copy(self):
@@ -442,6 +512,7 @@ class Ref:
         r.annot_writes = {k: list(v) for k, v in self.annot_writes.items()}
         r.files = {k: set(v) for k, v in self.files.items()}
         r.res_writes = {k: list(v) for k, v in self.res_writes.items()}
+        r.ctx_meta = dict(self.ctx_meta)
         r.clock = self.clock
         return r
 
@@ -481,7 +552,8 @@ SUB = 'sub1'
 def store_name(op):
     """Name bound by a store operation; names of the subcontext are prefixed 'sub1/'."""
     e = POOL[op['model']]
-    n = {'store': e['name'], 'store_input': 'input', 'store_final': 'final'}[op['kind']]
+    n = {'store': e['name'], 'store_input': 'input', 'store_final': 'final',
+         'dummy_run': e['name']}[op['kind']]
     return f'{SUB}/{n}' if op.get('sub') else n
 
 
@@ -493,13 +565,16 @@ def log_path_of(op):
 def apply_ack(ref, op):
     """Update the reference model with an acknowledged operation."""
     k = op['kind']
-    if k in ('store', 'store_input', 'store_final'):
+    if k in BINDERS:
         e = POOL[op['model']]
         name = store_name(op)
         st = ref.keys_acked.setdefault(e['key'], {'results': False})
-        st['results'] = st['results'] or e['has_results']
-        if e['has_results']:
-            ref.note_results(e['key'], e['results_json'], op.get('_times'))
+        js = op_results_json(op)
+        st['results'] = st['results'] or js is not None
+        if js is not None:
+            ref.note_results(e['key'], js, op.get('_times'))
+        if k == 'dummy_run':
+            ref.files.setdefault(e['key'], set()).add('dummyfile')
         # first binding of a name wins (store_key does nothing if the name exists)
         if name not in ref.names:
             ref.names[name] = e['key']
@@ -509,6 +584,12 @@ def apply_ack(ref, op):
         ref.keys_acked.setdefault(e['key'], {'results': False})
     elif k in ('metadata', 'localfile'):
         ref.files.setdefault(POOL[op['model']]['key'], set()).add(k)
+    elif k == 'nmfiles':
+        e = POOL[op['model']]
+        ref.files.setdefault(e['key'], set()).add(k)
+        ref.note_results(e['key'], NMRES[e['idx']], op.get('_times'))
+    elif k == 'ctx_metadata':
+        ref.ctx_meta[SUB if op.get('sub') else ''] = op['v']
     elif k == 'log':
         ref.log.append((op['sev'], log_path_of(op), op['msg']))
         ref.log_times.append(op.get('_times'))
@@ -519,11 +600,19 @@ def apply_ack(ref, op):
 def name_conflict(ref, op):
     """Binding a name that is already bound to another key is outside the contract
     (first binding wins, DESIGN.md 4): the workload never does it."""
-    if op['kind'] in ('store', 'store_input', 'store_final'):
+    if op['kind'] in BINDERS:
         name = store_name(op)
         e = POOL[op['model']]
         return name in ref.names and ref.names[name] != e['key']
     return False
+
+
+def do_nmfiles(db, e):
+    """What the NONMEM runner does with the output files of a run: one transaction on the
+    entry's key that copies them next to the model (model.lst, model.ext, ...)."""
+    with db.transaction(e['model']) as txn:
+        for suf in NM_SUFFIXES:
+            txn.store_local_file(os.path.join(_P['nm_dir'], 'pheno' + suf), new_filename='model' + suf)
 
 
 def do_op(ctx, op, localfile):
@@ -548,6 +637,15 @@ def do_op(ctx, op, localfile):
         ctx.model_database.store_metadata(e['model'], {'tool': 'x', 'n': 3})
     elif k == 'localfile':
         ctx.model_database.store_local_file(e['model'], localfile)
+    elif k == 'nmfiles':
+        do_nmfiles(ctx.model_database, e)
+    elif k == 'dummy_run':
+        # the real dummy estimation tool: store_model, retrieve_model, a transaction that stores
+        # its results file, then context.store_model_entry with the results attached
+        from pharmpy.tools.external.dummy.run import execute_model
+        execute_model(_P['ModelEntry'].create(e['model']), ctx)
+    elif k == 'ctx_metadata':
+        ctx.store_metadata(CTX_METADATA[op['v']])
     elif k == 'retrieve':
         return ('retrieved', None)
     elif k == 'retrieve_log':
@@ -624,31 +722,35 @@ class Infl:
         self.logs = []             # (sev, path, msg)
         self.datasets = set()
         self.names = {}            # name -> key  (bindings that may or may not exist)
+        self.ctx_meta = set()      # '' | 'sub1': an interrupted context metadata write
         for o in self.ops:
             k = o['kind']
+            if k == 'ctx_metadata':
+                self.ctx_meta.add(SUB if o.get('sub') else '')
+                continue
             if k == 'log':
                 self.logs.append((o['sev'], log_path_of(o), o['msg']))
             elif k == 'annotate':
                 self.annot_alts.setdefault(POOL[o['model']]['name'], set()).add(o['text'])
-            elif k in ('retrieve', 'retrieve_log', 'retrieve_name'):
+            elif k in READS:
                 pass
             else:
                 e = POOL[o['model']]
                 self.keys[e['key']] = k
                 self.datasets.add(e['dataset'])
-                if k == 'db_store_model' or (k in ('store', 'store_input', 'store_final')
-                                             and not e['has_results']):
+                if op_may_commit_without_results(o):
                     self.noresult_keys.add(e['key'])
-                if k in ('store', 'store_input', 'store_final'):
-                    if e['has_results']:
-                        self.result_jsons.setdefault(e['key'], set()).add(e['results_json'])
+                js = op_results_json(o)
+                if js is not None:
+                    self.result_jsons.setdefault(e['key'], set()).add(js)
+                if k in BINDERS:
                     nm = store_name(o)
                     self.annot_alts.setdefault(nm, set()).add(e['desc'])
                     self.names[nm] = e['key']
 
     @property
     def annotation_writers(self):
-        return any(o['kind'] in ('annotate', 'store', 'store_input', 'store_final') for o in self.ops)
+        return any(o['kind'] in ('annotate',) + BINDERS for o in self.ops)
 
 
 def check_state(root, ref, inflight, V, where, wl_models, do_progress=True):
@@ -709,6 +811,41 @@ def check_state(root, ref, inflight, V, where, wl_models, do_progress=True):
             V.count('r2.committed_ok')
         else:
             V.count('r1.complete_visible')
+        if prob is None:
+            # the entry is visible: every other accessor of the database must serve the same,
+            # complete content (separate snapshots of the same, quiescent state)
+            try:
+                m2 = db.retrieve_model(ModelHash(key))
+                r2 = db.retrieve_modelfit_results(ModelHash(key))
+                if not (m2 == GOLD[key]['model']) or str(ModelHash(m2)) != GOLD[key]['hash']:
+                    V.viol('accessors-disagree', f'{where}: retrieve_model({e["name"]}) differs from '
+                                                 f'what retrieve_model_entry returned')
+                elif (None if r2 is None else r2.to_json()) != (
+                        None if me.modelfit_results is None else me.modelfit_results.to_json()):
+                    V.viol('accessors-disagree', f'{where}: retrieve_modelfit_results({e["name"]}) differs '
+                                                 f'from the results in retrieve_model_entry')
+                dest = os.path.join(scratch_root(), 'copyout')
+                shutil.rmtree(dest, ignore_errors=True)
+                os.makedirs(dest)
+                db.retrieve_local_files(ModelHash(key), dest)
+                kdir = os.path.join(str(db.path), key)
+                for fn in sorted(os.listdir(kdir)):
+                    src = os.path.join(kdir, fn)
+                    if os.path.isfile(src):
+                        with simfs._orig['open'](src, 'rb') as f1:
+                            want_bytes = f1.read()
+                        try:
+                            with simfs._orig['open'](os.path.join(dest, fn), 'rb') as f2:
+                                got_bytes = f2.read()
+                        except OSError:
+                            got_bytes = None
+                        if got_bytes != want_bytes:
+                            V.viol('accessors-disagree', f'{where}: retrieve_local_files({e["name"]}) did '
+                                                         f'not deliver {fn} verbatim')
+                V.count('r2.accessors_ok')
+            except Exception as ex:
+                V.viol(f'accessors-disagree/{type(ex).__name__}',
+                       f'{where}: {e["name"]} is retrievable as an entry but another accessor raises {ex!r}')
     # ---- files stored next to an entry (store_metadata, store_local_file) are verbatim
     for key, kinds in ref.files.items():
         if key in infl.keys:
@@ -725,6 +862,18 @@ def check_state(root, ref, inflight, V, where, wl_models, do_progress=True):
                 with simfs._orig['open'](pth) as fh:
                     if fh.read() != 'some local file\n' * 40:
                         V.viol('stored-file-corrupted', f'{where}: local file of {key[:8]} differs')
+            if 'nmfiles' in kinds:
+                for suf in NM_SUFFIXES:
+                    pth = db.retrieve_file(ModelHash(key), 'model' + suf)
+                    with simfs._orig['open'](pth, 'rb') as fh, \
+                            simfs._orig['open'](os.path.join(_P['nm_dir'], 'pheno' + suf), 'rb') as f0:
+                        if fh.read() != f0.read():
+                            V.viol('stored-file-corrupted', f'{where}: model{suf} of {key[:8]} differs')
+            if 'dummyfile' in kinds:
+                found = [fn for fn in os.listdir(kdir) if fn.endswith('_results.json')]
+                if not found:
+                    V.viol('stored-file-unretrievable/missing', f'{where}: the results file stored by '
+                                                                f'the dummy runner for {key[:8]} is gone')
             V.count('r2.files_ok')
         except Exception as ex:
             V.viol(f'stored-file-unretrievable/{type(ex).__name__}',
@@ -745,7 +894,12 @@ def check_state(root, ref, inflight, V, where, wl_models, do_progress=True):
             continue
         try:
             c_, plain = cx(name)
-            me = c_.retrieve_model_entry(plain)
+            if plain == 'input':
+                me = c_.retrieve_input_model_entry()
+            elif plain == 'final':
+                me = c_.retrieve_final_model_entry()
+            else:
+                me = c_.retrieve_model_entry(plain)
         except Exception as ex:
             if isinstance(ex, _P['Pending']) and is_f3(key):
                 V.viol(pending_sig,
@@ -834,6 +988,31 @@ def check_state(root, ref, inflight, V, where, wl_models, do_progress=True):
             V.viol('annotation-not-verbatim', f'{where}: {name!r}: got {got!r}, stored {text!r}')
     # ---- R3 log
     check_log(ctx, ref, infl, V, where)
+    check_log_levels(ctx, V, where, infl)
+    # ---- what the context keeps besides entries: common options (written when the context was
+    # created, before any fault) and tool metadata
+    try:
+        co = ctx.retrieve_common_options()
+        if co != COMMON_OPTIONS:
+            V.viol('common-options-changed', f'{where}: retrieve_common_options() = {co!r}')
+    except FileNotFoundError:
+        # contexts the in-situ mode creates before this check existed pass no options
+        if os.path.exists(os.path.join(root, 'ctx', 'common_options')):
+            raise
+    except Exception as ex:
+        V.viol(f'common-options-changed/{type(ex).__name__}', f'{where}: retrieve_common_options: {ex!r}')
+    for which, v in ref.ctx_meta.items():
+        if which in infl.ctx_meta:
+            continue        # a later, interrupted store_metadata rewrites the file in place
+        try:
+            c_ = ctx if which == '' else quiet(ctx.get_subcontext(SUB))
+            got = c_.retrieve_metadata()
+            if got != CTX_METADATA[v]:
+                V.viol('context-metadata-not-verbatim', f'{where}: {which or "ctx"}: {got!r}')
+            else:
+                V.count('r2.ctx_metadata_ok')
+        except Exception as ex:
+            V.viol(f'context-metadata-lost/{type(ex).__name__}', f'{where}: {which or "ctx"}: {ex!r}')
     # ---- R4 progress: stores of keys that were not in flight succeed
     if do_progress:
         ref2 = ref.copy()
@@ -871,6 +1050,58 @@ def check_state(root, ref, inflight, V, where, wl_models, do_progress=True):
                        f'{where}: {e["name"]} stored after the crash: {prob}')
             else:
                 V.count('r4.progress_ok')
+
+
+def check_log_levels(ctx, V, where, infl):
+    """retrieve_log(level=...) of the context and of its subcontext: a level is a view of the one
+    log - an order-preserving, verbatim selection of the rows of 'all'; 'current' is contained
+    in 'lower'; a context's own messages are in both of its views, and the top context's own
+    messages are not in the subcontext's view of itself."""
+    def rows_of(c, level):
+        df = c.retrieve_log(level=level)
+        return list(zip(df['path'].tolist(), df['time'].tolist(), df['severity'].tolist(),
+                        df['message'].tolist()))
+
+    def subsequence(a, b):
+        it = iter(b)
+        return all(any(x == y for y in it) for x in a)
+
+    try:
+        allrows = rows_of(ctx, 'all')
+    except Exception:
+        return          # judged by check_log
+    ctxs = [(ctx, 'ctx')]
+    try:
+        ctxs.append((quiet(ctx.get_subcontext(SUB)), f'ctx/{SUB}'))
+    except ValueError:
+        pass
+    for c, cpath in ctxs:
+        try:
+            if rows_of(c, 'all') != allrows:
+                V.viol('log-levels', f'{where}: {cpath}: retrieve_log("all") differs from the top context\'s')
+                return
+            cur, low = rows_of(c, 'current'), rows_of(c, 'lower')
+        except Exception as ex:
+            V.viol(f'log-levels/{type(ex).__name__}', f'{where}: {cpath}: retrieve_log(level) raises {ex!r}')
+            return
+        if not subsequence(low, allrows) or not subsequence(cur, low):
+            V.viol('log-levels', f'{where}: {cpath}: a level view is not an order-preserving selection '
+                                 f'of the log ({len(cur)}/{len(low)}/{len(allrows)} rows)')
+            return
+        own = [r for r in allrows if r[0] == cpath]
+        if [r for r in cur if r[0] == cpath] != own or [r for r in low if r[0] == cpath] != own:
+            V.viol('log-levels', f'{where}: {cpath}: the context\'s own messages are missing from its '
+                                 f'"current"/"lower" view')
+            return
+        if cpath != 'ctx' and any(r[0] == 'ctx' for r in cur):
+            V.viol('log-levels', f'{where}: {cpath}: "current" shows messages of the parent context')
+            return
+        if cpath != 'ctx':
+            below = [r for r in allrows if r[0].startswith(cpath + '/')]
+            if [r for r in low if r[0].startswith(cpath + '/')] != below:
+                V.viol('log-levels', f'{where}: {cpath}: "lower" misses messages logged below the context')
+                return
+    V.count('r3.log_levels_ok')
 
 
 def check_log(ctx, ref, infl, V, where, ordered=True):
@@ -1011,13 +1242,13 @@ def run_excpoints(cfg, tape, want_trace=False):
         failed = []
         nonlocal harness
         with fs:
-            ctx = quiet(_P['Ctx']('ctx', ref=root))
+            ctx = quiet(_P['Ctx']('ctx', ref=root, common_options=COMMON_OPTIONS))
             k0 = fs.nops
             maybe = {}      # name -> key that a failed store may have bound
             for op in wl['ops']:
                 if name_conflict(ref, op):
                     continue
-                if op['kind'] in ('store', 'store_input', 'store_final') and \
+                if op['kind'] in BINDERS and \
                         maybe.get(store_name(op), POOL[op['model']]['key']) != POOL[op['model']]['key']:
                     # the name may already be bound to other content by the failed store:
                     # re-using it is outside the contract (first binding wins)
@@ -1042,7 +1273,7 @@ def run_excpoints(cfg, tape, want_trace=False):
                                f'{fmt_op(op)} raised {ex!r}; the injected error had hit '
                                f'{fmt_op(fault.fired_during)} earlier')
                     failed.append(op)
-                    if op['kind'] in ('store', 'store_input', 'store_final'):
+                    if op['kind'] in BINDERS:
                         maybe[store_name(op)] = POOL[op['model']]['key']
                     trace.append(f'{fmt_op(op)} -> {type(ex).__name__}')
                     continue
@@ -1109,7 +1340,7 @@ def run_scale(cfg, tape, want_trace=False):
     seq = order[:]
     for x in extra:
         seq.insert(tape.draw(len(seq) + 1, 'scale.pos'), x)
-    ctx = quiet(_P['Ctx']('ctx', ref=root))
+    ctx = quiet(_P['Ctx']('ctx', ref=root, common_options=COMMON_OPTIONS))
     done = []
     for idx in seq:
         op = {'kind': 'store', 'model': idx}
@@ -1156,6 +1387,12 @@ def run_one(cfg, tape: Tape, want_trace=False):
 
 
 def fresh_root():
+    # the dummy runner writes its run directory below the current directory: keep that outside
+    # the simulated root (and outside /verif), emptied for every run
+    cwd = os.path.join(scratch_root(), 'cwd')
+    shutil.rmtree(cwd, ignore_errors=True)
+    os.makedirs(cwd)
+    os.chdir(cwd)
     root = os.path.join(scratch_root(), 'r')
     if os.path.isdir(root):
         simfs.wipe(root)
@@ -1185,7 +1422,7 @@ def run_journal(cfg, tape, want_trace=False):
     executed = []
     harness = None
     with fs:
-        ctx = quiet(_P['Ctx']('ctx', ref=root))
+        ctx = quiet(_P['Ctx']('ctx', ref=root, common_options=COMMON_OPTIONS))
         k0 = len(fs.journal)
         for op in wl['ops']:
             if name_conflict(ref, op):
